@@ -270,7 +270,7 @@ class Run:
         seenv = set()
         for v in self.violations:
             h = hashlib.sha256(v["script"].encode()).hexdigest()[:12]
-            if h in seenv:
+            if h in seenv or len(paths) >= 5:       # at most 5 replay files / VIOLATION lines per run
                 continue
             seenv.add(h)
             path = os.path.join(VERIF, "replays", "%s-%s.json" % (self.prop, h))
@@ -291,6 +291,7 @@ class Run:
             "inconclusive": st.get("inconclusive", 0),
             "known_finding_hits": st.get("known", 0),
             "violations": len(paths),
+            "violating_obligations": len(self.violations),
             "harness_errors": len(errors),
             "status_counts": st,
             "evaluations": max(obligations, 1),
